@@ -401,3 +401,33 @@ Proof.
 Qed.
 
 End Parsed.
+
+(** [block_norm] changes nothing but the private no-trailer flag *)
+Lemma block_norm_attrs b :
+  b_package (block_norm b) = b_package b /\ b_version (block_norm b) = b_version b
+  /\ b_dists (block_norm b) = b_dists b /\ b_urgency (block_norm b) = b_urgency b
+  /\ b_comment (block_norm b) = b_comment b /\ b_changes (block_norm b) = b_changes b
+  /\ b_author (block_norm b) = b_author b /\ b_date (block_norm b) = b_date b
+  /\ b_trailing (block_norm b) = b_trailing b /\ b_pairs (block_norm b) = b_pairs b
+  /\ b_sep (block_norm b) = b_sep b.
+Proof. repeat split. Qed.
+
+(** for a parsed object nothing changes at all: with [ops = []] this is theorem 3 again *)
+Theorem format_normal_form J allow s st ops c t :
+  parse_changelog J false allow None (InStr s) = Ok st ->
+  forallb op_dom ops = true -> apply_ops (cl_of st) ops = Ok c ->
+  format_changelog false c = Ok t ->
+  exists st', parse_changelog J false allow None (InStr t) = Ok st'
+              /\ cl_of st' = mkCl (cl_initial c) (map block_norm (cl_blocks c))
+              /\ format_changelog false (cl_of st') = Ok t.
+Proof.
+  intros Hp. apply format_normal_form_edit. exact (parsed_doc_okc J allow s st Hp).
+Qed.
+
+Theorem format_normal_form_empty J allow ops c t :
+  forallb op_dom ops = true -> apply_ops empty_changelog ops = Ok c ->
+  format_changelog false c = Ok t ->
+  exists st', parse_changelog J false allow None (InStr t) = Ok st'
+              /\ cl_of st' = mkCl (cl_initial c) (map block_norm (cl_blocks c))
+              /\ format_changelog false (cl_of st') = Ok t.
+Proof. apply format_normal_form_edit. apply doc_okc_empty. Qed.
